@@ -1112,7 +1112,11 @@ func childMain(f Focus) {
 	}
 	ls := lineSink{bufio.NewWriterSize(os.Stdout, 1<<20)}
 	r := &runner{s: ls, f: f, rng: rand.New(rand.NewSource(job.Seed)), thorough: job.Tier == "thorough"}
-	r.runSurvive(job.Kind)
+	if strings.HasPrefix(job.Kind, "fresh-") {
+		r.freshServers(strings.TrimPrefix(job.Kind, "fresh-"))
+	} else {
+		r.runSurvive(job.Kind)
+	}
 	ls.put(map[string]any{"t": "done"})
 }
 
@@ -1191,6 +1195,7 @@ func (r *runner) inChild(c *hk.Ctx, kind string) {
 }
 
 func kindOf(k string) string {
+	k = strings.TrimPrefix(k, "fresh-")
 	if k == "sse" || k == "stdio" {
 		return k
 	}
@@ -1215,6 +1220,9 @@ func Main(f Focus, rule string) {
 		switch f.Kind {
 		case "wf":
 			r.runWF()
+			for _, k := range FreshKinds {
+				r.inChild(c, k)
+			}
 		case "alike":
 			r.runAlike()
 		case "survive":
@@ -1224,6 +1232,9 @@ func Main(f Focus, rule string) {
 				} else {
 					r.runSurvive(k)
 				}
+			}
+			for _, k := range FreshKinds {
+				r.inChild(c, k)
 			}
 		}
 	}})
